@@ -36,6 +36,9 @@ known("C07", "fstring-field-bare-tuple-range-includes-braces", "an unparenthesis
 for k_ in ("fstring-crlf-shifts-inner-ranges", "genexp-sole-argument-excludes-call-parens", "namedexpr-ends-before-closing-parens-of-value", "fstring-concat-piece-own-token-range"):
     known("C07", k_, "(see C02) " + next(f["description"] for f in []) if False else "see the C02 finding of the same name; inside replacement fields it also breaks the own-text rule of C07", "")
 
+for k_ in ("match-subject-trailing-comma-not-tuple", "softkw-match-case-name-at-line-start-with-colon", "subscript-starred-index-operand-above-bitwise-or-rejected", "fstring-field-triple-quoted-string-rejected"):
+    known("C08", k_, "layout-sensitive consequence of the C01 finding of the same name: " + TREE[k_][0], TREE[k_][1])
+
 # ---------------------------------------------------------------- C02
 known("C02", "argwithdefault-range-excludes-default", "the range of a parameter-with-default node ends before its default expression, so it does not enclose it (all-nodes-with-ranges)", "def f(a=1): pass")
 known("C02", "fstring-concat-piece-own-token-range", "pieces of an implicitly concatenated f-string carry their own token's range; the reference gives every piece the whole literal's extent", "'a' f'{x}'")
@@ -98,6 +101,14 @@ fixed("C19", "unlisted:formatted-text-differs", "78455d7", "format_bytes ignored
 known("C20", "index-bracket-not-scanned-as-opaque-unit", "inside a replacement field Python scans `[`...`]` as an opaque unit (so `!`, `:`, braces inside belong to the field name and a missing `]` is an error); this crate looks for `!` / `:` / braces first", "'{[}'")
 known("C20", "brace-inside-field-name-accepted", "a `{` inside a field name is accepted (Python: unexpected '{' in field name)", "'{]{}}'")
 known("C20", "conversion-character-brace-or-colon-handled-differently", "Python's template parser takes any single character after `!` as the conversion (also `{`, `}`, `:`); this crate rejects those", "'{!}}'")
+
+known("C09", "mod-range-starts-at-zero-with-start-offset", "under all-nodes-with-ranges the Mod* node's range starts at 0 instead of the start offset (the start-marker token carries a default range)", "parse_starts_at('x', Mode::Module, 400)")
+
+# ---------------------------------------------------------------- C11
+known("C11", "fstring-unparse-escaped-quote-inside-field", "an f-string whose field holds a string of the literal's own quote kind (or a '=' form echoing one) is rendered with backslash-escaped quotes inside the field, which does not parse", "f\"{'a'} \\\"\"")
+known("C11", "fstring-unparse-doubles-backslashes", "constants inside an f-string (strings in fields, format specs) that contain escapes come back with doubled backslashes", "f'{\"x\\ny\"}'")
+known("C11", "fstring-concat-pieces-normalised-by-unparse", "implicitly concatenated f-strings come back with adjacent literal pieces merged, empty pieces dropped and the `u` kind marker lost (tree not identical, text equal)", "u'a' f'{x}'")
+fixed("C11", "unlisted:rendering-rejected", "8ec82f4", "a dict-unpacking operand below bitwise-or precedence was rendered without parentheses (`{**a or b}`)", "{**(a or b)}")
 
 # further per-property tables are appended by findings_*.py fragments (one per check family)
 if __name__ == "__main__":
